@@ -57,32 +57,39 @@ Record cst : Type := mkcst {
   c_ev : list event;                 (* callback log, most recent first *)
   c_out : list Z;                    (* bytes written to the server, most recent first (-1: a byte the C code leaves undefined) *)
   c_screen : Z * Z;                  (* client->screen.width/height as last announced by ExtendedDesktopSize, (0,0) = none *)
-  c_reqrs : bool                     (* client->requestedResize: a SetDesktopSize is pending, update requests are withheld *)
+  c_reqrs : bool;                    (* client->requestedResize: a SetDesktopSize is pending, update requests are withheld *)
+  c_zrlez : bool;                    (* the SERVER's ZRLE deflate stream (5) has been started (= the client's own ZRLE inflate
+                                        stream is initialised, with fix 11 = notes/fix_C07_3.diff) *)
+  c_zlibz : bool                     (* the SERVER's Zlib deflate stream (0) has been started *)
 }.
 
 Definition set_fb (s : cst) (fb : fbuf) : cst :=
-  mkcst (c_w s) (c_h s) fb (c_fmt s) (c_sigmax s) (c_rawsz s) (c_zact s) (c_taint s) (c_upd s) (c_canfur s) (c_fix s) (c_ev s) (c_out s) (c_screen s) (c_reqrs s).
+  mkcst (c_w s) (c_h s) fb (c_fmt s) (c_sigmax s) (c_rawsz s) (c_zact s) (c_taint s) (c_upd s) (c_canfur s) (c_fix s) (c_ev s) (c_out s) (c_screen s) (c_reqrs s) (c_zrlez s) (c_zlibz s).
 Definition set_dims (s : cst) (w h : Z) (fb : fbuf) (upd : Z * Z * Z * Z) : cst :=
-  mkcst w h fb (c_fmt s) (c_sigmax s) (c_rawsz s) (c_zact s) (c_taint s) upd (c_canfur s) (c_fix s) (c_ev s) (c_out s) (c_screen s) (c_reqrs s).
+  mkcst w h fb (c_fmt s) (c_sigmax s) (c_rawsz s) (c_zact s) (c_taint s) upd (c_canfur s) (c_fix s) (c_ev s) (c_out s) (c_screen s) (c_reqrs s) (c_zrlez s) (c_zlibz s).
 Definition set_rawsz (s : cst) (n : Z) : cst :=
-  mkcst (c_w s) (c_h s) (c_fb s) (c_fmt s) (c_sigmax s) n (c_zact s) (c_taint s) (c_upd s) (c_canfur s) (c_fix s) (c_ev s) (c_out s) (c_screen s) (c_reqrs s).
+  mkcst (c_w s) (c_h s) (c_fb s) (c_fmt s) (c_sigmax s) n (c_zact s) (c_taint s) (c_upd s) (c_canfur s) (c_fix s) (c_ev s) (c_out s) (c_screen s) (c_reqrs s) (c_zrlez s) (c_zlibz s).
 Definition set_zact (s : cst) (z : list bool) : cst :=
-  mkcst (c_w s) (c_h s) (c_fb s) (c_fmt s) (c_sigmax s) (c_rawsz s) z (c_taint s) (c_upd s) (c_canfur s) (c_fix s) (c_ev s) (c_out s) (c_screen s) (c_reqrs s).
+  mkcst (c_w s) (c_h s) (c_fb s) (c_fmt s) (c_sigmax s) (c_rawsz s) z (c_taint s) (c_upd s) (c_canfur s) (c_fix s) (c_ev s) (c_out s) (c_screen s) (c_reqrs s) (c_zrlez s) (c_zlibz s).
 Definition set_taint (s : cst) : cst :=
-  mkcst (c_w s) (c_h s) (c_fb s) (c_fmt s) (c_sigmax s) (c_rawsz s) (c_zact s) true (c_upd s) (c_canfur s) (c_fix s) (c_ev s) (c_out s) (c_screen s) (c_reqrs s).
+  mkcst (c_w s) (c_h s) (c_fb s) (c_fmt s) (c_sigmax s) (c_rawsz s) (c_zact s) true (c_upd s) (c_canfur s) (c_fix s) (c_ev s) (c_out s) (c_screen s) (c_reqrs s) (c_zrlez s) (c_zlibz s).
 Definition set_canfur (s : cst) (b : bool) : cst :=
-  mkcst (c_w s) (c_h s) (c_fb s) (c_fmt s) (c_sigmax s) (c_rawsz s) (c_zact s) (c_taint s) (c_upd s) b (c_fix s) (c_ev s) (c_out s) (c_screen s) (c_reqrs s).
+  mkcst (c_w s) (c_h s) (c_fb s) (c_fmt s) (c_sigmax s) (c_rawsz s) (c_zact s) (c_taint s) (c_upd s) b (c_fix s) (c_ev s) (c_out s) (c_screen s) (c_reqrs s) (c_zrlez s) (c_zlibz s).
 Definition set_fix (s : cst) (m : Z) : cst :=
-  mkcst (c_w s) (c_h s) (c_fb s) (c_fmt s) (c_sigmax s) (c_rawsz s) (c_zact s) (c_taint s) (c_upd s) (c_canfur s) m (c_ev s) (c_out s) (c_screen s) (c_reqrs s).
+  mkcst (c_w s) (c_h s) (c_fb s) (c_fmt s) (c_sigmax s) (c_rawsz s) (c_zact s) (c_taint s) (c_upd s) (c_canfur s) m (c_ev s) (c_out s) (c_screen s) (c_reqrs s) (c_zrlez s) (c_zlibz s).
 Definition fixed (s : cst) (i : Z) : bool := Z.testbit (c_fix s) i.
 Definition set_screen (s : cst) (wh : Z * Z) : cst :=
-  mkcst (c_w s) (c_h s) (c_fb s) (c_fmt s) (c_sigmax s) (c_rawsz s) (c_zact s) (c_taint s) (c_upd s) (c_canfur s) (c_fix s) (c_ev s) (c_out s) wh (c_reqrs s).
+  mkcst (c_w s) (c_h s) (c_fb s) (c_fmt s) (c_sigmax s) (c_rawsz s) (c_zact s) (c_taint s) (c_upd s) (c_canfur s) (c_fix s) (c_ev s) (c_out s) wh (c_reqrs s) (c_zrlez s) (c_zlibz s).
 Definition set_reqrs (s : cst) (b : bool) : cst :=
-  mkcst (c_w s) (c_h s) (c_fb s) (c_fmt s) (c_sigmax s) (c_rawsz s) (c_zact s) (c_taint s) (c_upd s) (c_canfur s) (c_fix s) (c_ev s) (c_out s) (c_screen s) b.
+  mkcst (c_w s) (c_h s) (c_fb s) (c_fmt s) (c_sigmax s) (c_rawsz s) (c_zact s) (c_taint s) (c_upd s) (c_canfur s) (c_fix s) (c_ev s) (c_out s) (c_screen s) b (c_zrlez s) (c_zlibz s).
+Definition set_zrlez (s : cst) (b : bool) : cst :=
+  mkcst (c_w s) (c_h s) (c_fb s) (c_fmt s) (c_sigmax s) (c_rawsz s) (c_zact s) (c_taint s) (c_upd s) (c_canfur s) (c_fix s) (c_ev s) (c_out s) (c_screen s) (c_reqrs s) b (c_zlibz s).
+Definition set_zlibz (s : cst) (b : bool) : cst :=
+  mkcst (c_w s) (c_h s) (c_fb s) (c_fmt s) (c_sigmax s) (c_rawsz s) (c_zact s) (c_taint s) (c_upd s) (c_canfur s) (c_fix s) (c_ev s) (c_out s) (c_screen s) (c_reqrs s) (c_zrlez s) b.
 Definition add_ev (s : cst) (e : event) : cst :=
-  mkcst (c_w s) (c_h s) (c_fb s) (c_fmt s) (c_sigmax s) (c_rawsz s) (c_zact s) (c_taint s) (c_upd s) (c_canfur s) (c_fix s) (e :: c_ev s) (c_out s) (c_screen s) (c_reqrs s).
+  mkcst (c_w s) (c_h s) (c_fb s) (c_fmt s) (c_sigmax s) (c_rawsz s) (c_zact s) (c_taint s) (c_upd s) (c_canfur s) (c_fix s) (e :: c_ev s) (c_out s) (c_screen s) (c_reqrs s) (c_zrlez s) (c_zlibz s).
 Definition add_out (s : cst) (bs : list Z) : cst :=
-  mkcst (c_w s) (c_h s) (c_fb s) (c_fmt s) (c_sigmax s) (c_rawsz s) (c_zact s) (c_taint s) (c_upd s) (c_canfur s) (c_fix s) (c_ev s) (rev bs ++ c_out s) (c_screen s) (c_reqrs s).
+  mkcst (c_w s) (c_h s) (c_fb s) (c_fmt s) (c_sigmax s) (c_rawsz s) (c_zact s) (c_taint s) (c_upd s) (c_canfur s) (c_fix s) (c_ev s) (rev bs ++ c_out s) (c_screen s) (c_reqrs s) (c_zrlez s) (c_zlibz s).
 
 (* ---------------------------------------------------------------- results and the reader monad *)
 Inductive res (A : Type) : Type :=
